@@ -19,6 +19,17 @@ PROPS = {
             "capability predicates are judged only where the specification documents pronounce (MOVED_NODE for v4+ is not judged)",
         ],
     },
+    "C20": {
+        "lean_targets": ["Cql.Props.C20"],
+        "trusted_base": COMMON_TRUST + [TRANSLATOR, HARNESS],
+        "assumptions": [
+            "the translator reports the statements of the Startup accessors and Frame mutators faithfully (validated on every run by "
+            "replaying mutator/accessor sequences on the real code and the model)",
+            "mutator applicability follows the doc comments in frame.go: tracing id and warnings on responses, RequestTracingId on requests",
+            "'the frame still encodes and round-trips' is shown by the harness on the implementation for every explored sequence; the Lean "
+            "theorem carries the flags/body invariant that C01's validity predicate requires",
+        ],
+    },
 }
 
 MANIFEST_TEXT = {
@@ -33,6 +44,17 @@ MANIFEST_TEXT = {
                 "predicates on the full 8/16-bit domains, 32-bit boundaries and all 256 version bytes); the hand transcription "
                 "of the specs' feature lists in Cql/Spec/Features.lean.",
         "technique": "Lean 4 kernel-checked theorems over tables regenerated from the Go source (decidable set equality lifted to ∀ x)",
+    },
+    "C20": {
+        "text": "Lean theorems over functions regenerated from frame/frame.go and message/startup.go: after ANY finite sequence of "
+                "applicable mutator calls with arbitrary arguments the header flags reflect exactly the body parts present and "
+                "compression is never flagged for STARTUP/OPTIONS/READY (inductive invariant over all histories; flag algebra decided "
+                "over the complete 8-bit flag domain); every STARTUP setter stores what its getter returns and touches no other key, "
+                "and any history of setter calls behaves like an abstract record of seven independent options (refinement).",
+        "design_ref": "DESIGN.md §5 C20",
+        "note": "Trusted: Lean kernel; the translator's reading of the accessor/mutator bodies; the harness for the 'still encodes and "
+                "round-trips' clause (checked on the implementation for explored sequences, and by C01's theorem for valid frames).",
+        "technique": "Lean 4 invariant-by-induction and refinement theorems over functions regenerated from the Go source",
     },
 }
 
